@@ -60,6 +60,7 @@ let print_cfg tag (c : cfgst) =
 let print_world (w : world) =
   Printf.printf "W inited=%d coll=%d\n" (if w.w_inited then 1 else 0) (if w.w_coll then 1 else 0);
   Printf.printf "HEAD %s\n" (hx w.w_head);
+  Printf.printf "HEADRAW %s\n" (hx (render_head w.w_head));
   Stdlib.List.iter (fun (n, id) -> Printf.printf "REF %s %s\n" (hx n) (hx id)) w.w_refs;
   (match w.w_index with
    | None -> Printf.printf "IDX absent\n"
@@ -134,6 +135,50 @@ let parse_action (toks : Stdlib.String.t list) : action =
   | ["E"; "mkdir"; p] -> AEdit (UMkdir (ub p))
   | _ -> failwith ("driver: bad action: " ^ Stdlib.String.concat " " toks)
 
+(* ---- queries on the pure decoders (correspondence of decoders, C19) ---- *)
+let opt_bytes o = match o with None -> "none" | Some b -> "some " ^ hx b
+let query (toks : Stdlib.String.t list) : Stdlib.String.t =
+  match toks with
+  | ["parse_payload"; p] ->
+      (match parse_payload (ub p) with
+       | None -> "none"
+       | Some (k, d) -> "some " ^ string_of_bytes (kind_s k) ^ " " ^ hx d)
+  | ["get_obj"; id; p] ->
+      (match get_obj [(ub id, ub p)] (ub id) with
+       | None -> "none"
+       | Some (k, d) -> "some " ^ string_of_bytes (kind_s k) ^ " " ^ hx d)
+  | ["decode_index"; b] ->
+      (match decode_index (ub b) with
+       | None -> "none"
+       | Some es -> "some " ^ Stdlib.String.concat "," (Stdlib.List.map (fun e -> hx e.e_id ^ ":" ^ hx e.e_path) es))
+  | ["cfg_load"; b] ->
+      (match cfg_load (ub b) with
+       | None -> "none"
+       | Some c -> "some " ^ Stdlib.String.concat ";" (Stdlib.List.map (fun (s, kvs) ->
+            hx s ^ "=" ^ Stdlib.String.concat "," (Stdlib.List.map (fun (k, v) -> hx k ^ ":" ^ hx v) kvs)) c))
+  | ["parse_reflog"; b] ->
+      (match parse_reflog (ub b) with
+       | None -> "none"
+       | Some rs -> "some " ^ Stdlib.String.concat "," (Stdlib.List.map (fun r ->
+            (match r.r_id with None -> "0" | Some h -> hx h) ^ ":" ^ hx r.r_msg) rs))
+  | ["parse_commit"; d] ->
+      (match parse_commit (ub d) with
+       | None -> "none"
+       | Some c -> "some " ^ hx c.c_tree ^ " " ^ Stdlib.String.concat "," (Stdlib.List.map hx c.c_parents) ^ " " ^ hx c.c_msg)
+  | ["parse_head"; b] -> opt_bytes (parse_head (ub b))
+  | ["parse_ref"; b] -> opt_bytes (parse_ref (ub b))
+  | ["read_sign"; b] ->
+      (match read_sign (ub b) with
+       | None -> "none"
+       | Some s -> "some " ^ hx s.s_name ^ " " ^ hx s.s_email)
+  | ["reset_arg"; b] -> (match reset_arg (ub b) with None -> "none" | Some n -> "some " ^ string_of_int (n_to_int n))
+  | ["sha1"; b] -> hx (sha1 (ub b))
+  | ["walk_tree"; d] ->
+      (match walk_tree (nat_of_int 3) [] (ub d) with
+       | None -> "none"
+       | Some ns -> "some " ^ Stdlib.String.concat "," (Stdlib.List.map (fun ((isd, i), n) -> (if isd then "t" else "b") ^ hx i ^ ":" ^ hx n) (tree_listing ns)))
+  | _ -> "badquery"
+
 let () =
   let w = ref w_empty in
   let n = ref 0 in
@@ -144,6 +189,7 @@ let () =
        match toks with
        | [] -> ()
        | ["RESET"] -> w := w_empty; Hashtbl.reset printed; n := 0; print_string "RESETOK\n"
+       | "Q" :: q -> print_string ("QR " ^ query q ^ "\n"); flush stdout
        | _ ->
            let a = parse_action toks in
            let ((w', out), tr) = step a !w in
